@@ -126,7 +126,7 @@ AlphabetOf ==
     [] Cfg = "brif" -> AlphaBrIf
     [] Cfg = "brif2" -> AlphaBrIf2
     [] Cfg = "mem" -> AlphaMem [] Cfg = "call" -> AlphaCall [] Cfg = "i64" -> AlphaI64
-    [] Cfg \in {"witness", "alu", "struct", "valstruct", "stress", "valstress"} -> {}
+    [] Cfg \in {"witness", "alu", "struct", "valstruct", "stress", "valstress", "valstress2"} -> {}
     [] Cfg = "val" -> AlphaVal
     [] Cfg = "host" -> AlphaHost
     [] Cfg = "all" -> AlphaCtl \cup AlphaCtl2 \cup AlphaLoop \cup AlphaMem \cup AlphaCall \cup AlphaI64 \cup AlphaBrIf
@@ -145,6 +145,8 @@ Witnesses == {
   << LGet(0), LGet(1), Iff(0), C32(1), LSet(0), Els, C32(2), LSet(0), End, End >>,
   \* D2: block-result register recycled after a not-taken br_if
   << Blk(2), C32(1), C32(0), BrIf(0), Drop, LGet(0), C32(5), Bin(2, "add"), C32(7), C32(0), BrIf(0), Drop, End, End >>,
+  \* D2, static: the recycled result register is handed to the metering flag of a br_if in the else arm (the then arm is never executed)
+  << LGet(0), Iff(2), LGet(1), C32(0), BrIf(0), Drop, C32(7), Els, LGet(0), LGet(1), BrIf(0), Drop, C32(8), End, End >>,
   \* D3: rem_s(MIN, -1)
   << CV(2, MIN32), C32(-1), Bin(2, "rem_s"), End >>,
   << C32(300), CV(4, MinVal(4)), C64(-1), Bin(4, "rem_s"), Store(4, 8, 0), C32(300), Load(2, 4, FALSE, 0), End >>,
@@ -231,11 +233,25 @@ ValStressBodies(dummy) ==
       pre \in { <<>> }, post \in { << End >> }, v \in VVals, s1 \in VSteps, s2 \in VSteps, s3 \in VSteps, s4 \in VSteps }
   \cup { << LGet(0), Blk(2) >> \o v \o s1 \o s2 \o s3 \o << End, Bin(2, "add"), End >> : v \in VVals, s1 \in VSteps, s2 \in VSteps, s3 \in VSteps }
 
+(* br_table carrying a value out of nested value blocks, and value-carrying if arms that write the locals their values refer to *)
+TabLabels == { << <<0, 1>>, 1 >>, << <<1, 0>>, 0 >>, << <<0>>, 1 >>, << <<1>>, 0 >>, << <<0, 0>>, 1 >> }
+TabConds == { << LGet(0) >>, << LGet(1) >>, << C32(0) >>, << C32(1) >>, << C32(2) >> }
+AfterInner == { <<>>, << C32(1), Bin(2, "add") >>, << LGet(1), BrIf(0) >>, << Drop, LGet(0) >> }
+PreWrite == { <<>>, << C32(9), LSet(0) >>, << LGet(1), LSet(0) >> }
+ArmVals == { << LGet(0) >>, << LGet(1) >>, << C32(5) >>, << LGet(0), C32(9), LSet(0) >>, << LGet(0), LGet(1), LSet(0) >>, << LGet(0), C32(1), BrIf(0) >>, << LGet(1), LGet(0), BrIf(0) >>,
+             << LGet(0), LGet(1), BrIf(0), Drop, C32(7) >> }
+ValStress2Bodies(dummy) ==
+  { << Blk(2), Blk(2) >> \o v \o w \o c \o << BrTab(t[1], t[2]), End >> \o a \o << End, End >> : v \in VVals, w \in PreWrite, c \in TabConds, t \in TabLabels, a \in AfterInner }
+  \cup { << LGet(0), Blk(2), Blk(2) >> \o v \o w \o c \o << BrTab(t[1], t[2]), End >> \o a \o << End, Bin(2, "add"), End >> : v \in VVals, w \in PreWrite, c \in TabConds, t \in TabLabels, a \in AfterInner }
+  \cup { c \o << Iff(2) >> \o a \o << Els >> \o b \o << End, End >> : c \in Conds, a \in ArmVals, b \in ArmVals }
+  \cup { << LGet(0) >> \o c \o << Iff(2) >> \o a \o << Els >> \o b \o << End, Bin(2, "add"), End >> : c \in Conds, a \in ArmVals, b \in ArmVals }
+
 WellTyped(b) == \A i \in 1..Len(b) : (b[i].op = "const" => Len(b[i].v) = b[i].t)
 FixedBodies == IF Cfg = "witness" THEN Witnesses
                ELSE IF Cfg = "struct" THEN {b \in StructBodies(0) : ValidBody(GenCtx, b)}
                ELSE IF Cfg = "valstruct" THEN ValBodies(0)
                ELSE IF Cfg = "stress" THEN {b \in StressBodies(0) : ValidBody(GenCtx, b)}
+               ELSE IF Cfg = "valstress2" THEN {b \in ValStress2Bodies(0) : ValidBody(GenCtx, b)}
                ELSE IF Cfg = "valstress" THEN {b \in ValStressBodies(0) : ValidBody(GenCtx, b)}
                ELSE {b \in ALUBodies(0) : WellTyped(b)}
 (* fixed bodies are classified by the recogniser: valid ones are executed by the reference, invalid ones only carry the verdict *)
